@@ -357,7 +357,7 @@ func checkC19(c CaseC19, info *Info) *Failure {
 		}
 		if raws != nil {
 			if c.Kind == "json" {
-				if !bytes.Equal(raws[i], stripWS(texts[i])) {
+				if !bytes.Equal(stripWS(raws[i]), stripWS(texts[i])) {
 					return failf("raw-mismatch", "raw %d %q is not the document %q (modulo whitespace)", i, raws[i], texts[i])
 				}
 			} else if !bytes.Contains(raws[i], bytes.TrimSpace(texts[i])) {
